@@ -294,7 +294,8 @@ func errorDropped(w *World, fn *ssa.Function, c *ssa.Call) string {
 		testedNonNil, testedNil := false, false
 		pathEdges(path, func(b *ssa.BasicBlock, succ int) {
 			if cv, truth, ok := edgeAssertion(b, succ); ok {
-				if x, eq, isN := nilCompare(cv); isN && alias[x] {
+				// (the test may sit in a helper the error is handed to: its parameter is the error on this path)
+				if x, eq, isN := nilCompare(cv); isN && (alias[x] || alias[rvI(x, curEdgeIdx)] || alias[resolveOn(x, curEdgeIdx, path)]) {
 					if eq == truth {
 						testedNil = true
 					} else {
